@@ -3,7 +3,9 @@ CONSTANTS
   Conns = {1, 2}
   Nodes = {1, 2}
   MaxReq = 2
+  ChildrenMayFail = TRUE
+  ErrorCompletesParent = FALSE
   SessCap = 1
-INVARIANTS ReplyOrder OnlyComplete NeverAhead
+INVARIANTS ReplyOrder OnlyComplete NeverAhead ParentOnce WrittenComplete
 PROPERTIES AllAnswered
 CHECK_DEADLOCK FALSE
